@@ -916,6 +916,7 @@ def run_case(case):
         out = []; c = 0.0
         for (_, r, _, _) in g['tr'][:-1]:
             c += r; out.append(c / a)
+        out += [1.0 - 2.0 ** -53, 1.0 - 2.0 ** -52]          # the top end of the scan: r2*a within an ulp or two of the total rate
         return [x for x in out if 0.0 < x < 1.0]
     sr.hook = boundary
     orig_build = top.build
